@@ -619,6 +619,24 @@ impl Node {
         !matches!(self, Empty | Assert(_) | Look(..) | SetFlags(..))
     }
 
+    /// F23 class: a bracketed class containing unescaped white space or `#` while the free-spacing flag `x` is
+    /// switched on somewhere in the pattern (the crate keeps class contents verbatim, the regex crate skips white
+    /// space and comments inside classes too)
+    pub fn has_spaced_class_under_x(&self) -> bool {
+        let x_on = self.any(|n| matches!(n, Flags(on, _, _) | SetFlags(on, _) if on.contains('x')));
+        x_on && self.any(|n| match n {
+            Raw(s, _) if s.starts_with('[') => {
+                let mut prev_bs = false;
+                s.chars().any(|c| {
+                    let hit = !prev_bs && (c == ' ' || c == '\t' || c == '\n' || c == '\r' || c == '#');
+                    prev_bs = c == '\\' && !prev_bs;
+                    hit
+                })
+            }
+            _ => false,
+        })
+    }
+
     /// F5 class: an inline flag setting whose nearest enclosing parenthesis is a capturing group, an
     /// atomic group, a look-around or a conditional (the crate restores flags only at the end of
     /// `(?flags:..)` / `(?:..)` groups, so such a setting leaks into the rest of the pattern)
